@@ -200,3 +200,33 @@ package config
 //@   returns#onlydefaults err == nil ==> called("github.com/knadh/koanf/providers/structs.Provider") == 1 && called("Load") == 1
 //@   returns#noothers called("github.com/knadh/koanf/providers/env.ProviderWithValue") == 0 && called("github.com/knadh/koanf/providers/env.Provider") == 0
 //@        && called("github.com/knadh/koanf/providers/file.Provider") == 0 && called("github.com/knadh/koanf/providers/posflag.Provider") == 0
+
+// ---- C11: templated config values -----------------------------------------------------------
+// Package initialisation: ErrInfiniteLoop = fmt.Errorf(...) is non-nil and never reassigned (assumed).
+//@ axiom errinfiniteloop_nonnil: ErrInfiniteLoop != nil
+
+// Bindings (from the field documentation of TemplateData), fixpoint, termination.
+//   render(text, data) stands for text/template Parse+Execute with the function library (assumed deterministic).
+//@ func (*Config).ParseTemplates props=C11
+//@   requires c.ConfigFile != nil && c.StructName != nil && c.Template != nil && c.Dir != nil && c.FileName != nil && c.PkgName != nil && c.TemplateSchema != nil
+//@   requires srcPkg != nil
+//@   requires c.Dir != c.FileName && c.Dir != c.PkgName && c.Dir != c.StructName && c.Dir != c.TemplateSchema && c.FileName != c.PkgName && c.FileName != c.StructName
+//@         && c.FileName != c.TemplateSchema && c.PkgName != c.StructName && c.PkgName != c.TemplateSchema && c.StructName != c.TemplateSchema
+//@   site#data Execute: $1 == box(data)
+//@   site#mock Execute: data.Mock == (iface == nil ? "" : (ast.IsExported(iface.Name) ? "Mock" : "mock"))
+//@   site#iface Execute: data.InterfaceName == (iface == nil ? "" : iface.Name) && data.InterfaceFile == (iface == nil ? "" : iface.FileName)
+//@   site#ifacedir Execute: iface != nil ==> data.InterfaceDir == pathlib.NewPath(iface.FileName).Parent().String()
+//@   site#srcpkg Execute: data.SrcPackageName == srcPkg.Types.Name() && data.SrcPackagePath == srcPkg.Types.Path()
+//@   site#tmpl Execute: data.Template == old(*c.Template) && data.StructName == old(*c.StructName)
+//@   site#configdir Execute: data.ConfigDir == filepath.Dir(old(*c.ConfigFile))
+//@   site#funcs Parse: called("Funcs") >= 1
+//@   returns#fixpoint err == nil ==> render(*c.Dir, data) == *c.Dir && render(*c.FileName, data) == *c.FileName && render(*c.PkgName, data) == *c.PkgName
+//@         && render(*c.StructName, data) == *c.StructName && render(*c.TemplateSchema, data) == *c.TemplateSchema
+//@   returns#capped i >= 20 && changesMade ==> err != nil
+//@   loop 0: invariant 0 <= i && i <= 20 && templateMap != nil
+//@   loop 0: invariant#ptrs ("dir" in templateMap) && templateMap["dir"] == c.Dir && ("filename" in templateMap) && templateMap["filename"] == c.FileName && ("pkgname" in templateMap) && templateMap["pkgname"] == c.PkgName
+//@         && ("structname" in templateMap) && templateMap["structname"] == c.StructName && ("template-schema" in templateMap) && templateMap["template-schema"] == c.TemplateSchema
+//@   loop 0: invariant#keys forall k string :: (k in templateMap) ==> k == "dir" || k == "filename" || k == "pkgname" || k == "structname" || k == "template-schema"
+//@   loop 0: invariant#fix !changesMade ==> (forall k string :: (k in templateMap) ==> render(*templateMap[k], data) == *templateMap[k])
+//@   loop 0: decreases 21 - i
+//@   loop 2: invariant#fix !changesMade ==> (forall k string :: (k in templateMap) && $visited[k] ==> render(*templateMap[k], data) == *templateMap[k])
